@@ -168,7 +168,11 @@ def oracle_c02(ctx, shape, info, rows_by_phase, durations, opts, df, sysobj):
                 ctx.check("power-minus-loss=handed-on", Implies(pol, Eq(p - l, Abs(r["vout"]) * r["iout"])), info=inf)
                 ctx.check("loss-range", Implies(pol, And(Ge(l, 0.0), Le(l, p))), info=inf)
                 ctx.check("efficiency", Implies(And(pol, Gt(p, 0.0)), And(Eq(e * p, 100.0 * (p - l)), Ge(e, 0.0), Le(e, 100.0))), info=inf)
-            if "tr" in r:
+            if "tr" in r and isinstance(r["tr"], str):
+                # a phase in which no component has a positive rise carries no temperature columns (blank after concat)
+                heat = p if (kind in spec.LOADS and not P["loss"]) else l
+                ctx.check("blank-temp-only-when-no-rise", IsZero(Abs(P.get("rt", 0.0)) * heat), info=inf)
+            elif "tr" in r:
                 heat = p if (kind in spec.LOADS and not P["loss"]) else l
                 ctx.check("temp-rise", Eq(r["tr"], Abs(P.get("rt", 0.0)) * heat), info=inf)
                 ctx.check("peak-temp", Eq(r["tp"], (opts.get("_ta") if opts.get("_ta") is not None else ta) + r["tr"]), info=inf)
